@@ -199,6 +199,7 @@ let ev_of_token (tok : string) : PoolMon.ev =
     | ["R"; t; c; "0"] -> PoolMon.VRecv (n t, n c, false)
     | ["R"; t; _; "x"] -> PoolMon.VDead (n t)
     | ["C"; t; _; "x"] -> PoolMon.VDead (n t)
+    | ["C"; t; _; "s"] -> PoolMon.VWrongTask (n t)
     | ["C"; t; i; p] -> PoolMon.VCall (n t, n i, p = "1")
     | ["H"; t; "x"] -> PoolMon.VDead (n t)
     | ["H"; t; o] -> PoolMon.VClone (n t, o = "1")
@@ -219,7 +220,7 @@ let ev_of_token (tok : string) : PoolMon.ev =
   with _ -> PoolMon.VOther
 
 let clause_name = function
-  | 1 -> "once-per-index" | 2 -> "results-indexed" | 3 -> "touch-after-caller-may-resume" | 4 -> "worker-not-exited"
+  | 1 -> "once-per-index(the-task)" | 2 -> "results-indexed" | 3 -> "touch-after-caller-may-resume" | 4 -> "worker-not-exited"
   | 5 -> "spawn-count" | 6 -> "dead-task-block-access" | 7 -> "foreign-event" | 8 -> "incomplete(deadlock)"
   | 9 -> "caller-left-broadcast-with-nonzero-counter" | k -> "clause" ^ string_of_int k
 
